@@ -157,7 +157,14 @@ class ShardedIterable(types.Recoverable, Iterable[_T]):
       raise ValueError(f'num_shards must be positive, got {self._shard_state=}')
 
   def shard(self, shard_index: int, num_shards: int) -> Self:
-    return dc.replace(self, _shard_state=ShardConfig(shard_index, num_shards))
+    # Shard within the current shard: the elements of the current shard are at
+    # positions `current.shard_index + current.num_shards * j`.
+    current = self._shard_state
+    shard_state = ShardConfig(
+        current.shard_index + current.num_shards * shard_index,
+        current.num_shards * num_shards,
+    )
+    return dc.replace(self, _shard_state=shard_state)
 
   @property
   def state(self) -> ShardConfig:
